@@ -123,7 +123,7 @@ WEIGHT0_FUNCS = None   # any other library call requires weight-0 arguments and 
 
 
 class KernelAnalysis:
-    def __init__(self, fi, graded_params=None, raw_params=(), extra_dsyms=(), model=None):
+    def __init__(self, fi, graded_params=None, raw_params=(), extra_dsyms=(), model=None, extra_graded=()):
         self.fi = fi
         self.model = model
         self.issues = []
@@ -155,6 +155,7 @@ class KernelAnalysis:
         self.rlog = []      # reads : Read objects actually consumed by a store
         self.check_init = True      # O5 (forward kernels); pullback kernels accumulate into their out by contract
         self.defer_coverage = False  # O7 is run by the caller after helper analyses have been merged
+        self.extra_graded = set(extra_graded)
         self._init_params(graded_params)
         for ds in extra_dsyms:
             # a parameter that receives the caller's truncation degree (number of coefficients)
@@ -169,7 +170,7 @@ class KernelAnalysis:
             if graded_params is not None:
                 if p in graded_params:
                     self._decl(p, 'in')
-            elif p.endswith('_data'):
+            elif p.endswith('_data') or p in self.extra_graded:
                 self._decl(p, 'in')
             elif p == 'out' and not self._out_is_tuple():
                 self._decl(p, 'out')
@@ -2140,6 +2141,13 @@ def coverage_gaps(ka, dmax=5, extra_cover=None):
             gap_ = _path_gap(ka, g, pws, dmax, zero_fill, extra=(extra_cover or {}).get(arr))
             if gap_ == 'undecided':
                 continue
+            if gap_ is not None and g.role == 'local':
+                # a work array that does not leave the function: an entry nobody reads may stay undefined
+                rd = read_sets(ka, arr, dmax)
+                if rd is not None:
+                    allg = {D_: [i for i in miss if i in rd.get(D_, set())] for D_, miss in gap_[2].items()}
+                    allg = {D_: miss for D_, miss in allg.items() if miss}
+                    gap_ = (min(allg), allg[min(allg)], allg) if allg else None
             checked[0] += 1
             if gap_ is not None:
                 lw = ([w for w in pws if w[1][0] == 'idx' and w[1][1].vars()] or pws or ws)[0]
@@ -2147,6 +2155,51 @@ def coverage_gaps(ka, dmax=5, extra_cover=None):
                 break
         continue
     ka.coverage_checked = checked[0]
+    return out
+
+
+def read_sets(ka, arr, dmax=5):
+    """{D: coefficient indices of `arr` that some logged read can hit}; None if a read could not be enumerated"""
+    from .affine import enumerate_valuations
+    alias = getattr(ka, 'alias_of', {})
+
+    def root(n):
+        s_ = set()
+        while n in alias and n not in s_:
+            s_.add(n)
+            n = alias[n]
+        return n
+    out = {D: set() for D in range(1, dmax + 1)}
+    for r in ka.rlog:
+        if root(r.arr) != arr and r.arr != arr:
+            continue
+        exprs = [r.idx] + [Aff.var(c_[0]) for c_ in r.cons]
+        try:
+            rg = ka._all_ranges(exprs)
+            vals = list(enumerate_valuations(rg, ['#D'], dmax=dmax))
+        except Exception:
+            return None
+        for val in vals:
+            if not _cons_ok(r.cons, val, False):
+                continue
+            try:
+                out[val.get('#D')].add(int(r.idx.eval(val)))
+            except (KeyError, TypeError, ValueError):
+                return None
+    # whole-array uses that are not logged as reads (returned, passed on, copied): every entry counts as read
+    g = ka.gvars.get(arr)
+    for n in walk_no_nested(ka.fi.node):
+        if isinstance(n, ast.Name) and n.id == arr and isinstance(n.ctx, ast.Load):
+            par = getattr(n, '_parent', None)
+    for n in ast.walk(ka.fi.node):
+        for ch in ast.iter_child_nodes(n):
+            if isinstance(ch, ast.Name) and ch.id == arr and isinstance(ch.ctx, ast.Load) and not isinstance(n, (ast.Subscript, ast.Attribute)):
+                # bare use of the array (argument, return value, right-hand side)
+                for D in out:
+                    try:
+                        out[D] |= set(range(int(g.length.eval({'#D': D})))) if g is not None else set()
+                    except (KeyError, TypeError, ValueError):
+                        return None
     return out
 
 
